@@ -492,6 +492,14 @@ def structured_cases(r):
             out.append(("CfdpLv.unpack", R.lv(body)))
             out.append(("MetadataPdu.unpack", R.assemble(cfg0, 0, 0, bytes([7, 0x40]) + bytes(4) + b"\x01a\x01b" + R.tlv(2, body))))
             out.append(("PduFactory.from_raw", R.assemble(cfg0, 0, 0, bytes([7, 0x40]) + bytes(4) + b"\x01a\x01b" + R.tlv(2, body))))
+    # reserved CFDP messages cut short behind the marker: every message type octet (defined and undefined ones) followed by 0..6
+    # octets and by LV-shaped content that promises more than is there - the second-step readers (to_reserved_msg_tlv, get_...)
+    # are exercised by the probe of the returned object
+    for t in list(range(0x00, 0x0C)) + [0x10, 0x11, 0x15, 0x20, 0x7F, 0xFF]:
+        for tail in (b"", b"\x00", b"\x01", b"\x05ab", b"\x01a\x01", b"\x01a\x01b\x09", b"\x11\x01", b"\x77\x01\x02\x03\x04\x05", b"\x80\x03abc", b"\x80\x03abc\x05x", r.randbytes(6)):
+            raw = R.tlv(2, b"cfdp" + bytes([t]) + tail)
+            for route in ("MessageToUserTlv.unpack", "MessageToUserTlv.from_tlv", "TlvHolder.to_msg_to_user"):
+                out.append((route, raw))
     X = C.lib()
     for kind in C.KINDS8:
         cname = f"{X.CLS[kind].__name__}.unpack"
